@@ -56,7 +56,8 @@ def array(draw, pool):
         n = len(src["flat"])
         shapes = [(a, n // a) for a in range(1, n + 1) if n % a == 0]
         r, c = draw(st.sampled_from(shapes))
-        a = {"t": "array", "dtype": src["dtype"], "shape": [r, c], "flat": list(src["flat"])}
+        a = {"t": "array", "dtype": src["dtype"], "shape": [r, c], "flat": list(src["flat"]),
+             "memory": draw(st.sampled_from(["C", "F", "transposed-view"]))}
         return a
     dt = draw(st.sampled_from(["int", "float", "complex"]))
     r, c = draw(st.integers(1, 3)), draw(st.integers(1, 4))
@@ -66,7 +67,8 @@ def array(draw, pool):
         flat = [draw(_finite_float()) for _ in range(r * c)]
     else:
         flat = [[draw(_finite_float()), draw(_finite_float())] for _ in range(r * c)]
-    a = {"t": "array", "dtype": dt, "shape": [r, c], "flat": flat}
+    a = {"t": "array", "dtype": dt, "shape": [r, c], "flat": flat,
+         "memory": draw(st.sampled_from(["C", "C", "F", "transposed-view", "reversed-view"]))}
     pool.append(a)
     return a
 
@@ -167,7 +169,15 @@ def realise(d):
             a = np.array(d["flat"], dtype=np.int64)
         else:
             a = np.array(d["flat"], dtype=np.float64)
-        return a.reshape(d["shape"])
+        a = a.reshape(d["shape"])
+        mem = d.get("memory", "C")
+        if mem == "F":
+            a = np.asfortranarray(a)                       # same values, column-major memory
+        elif mem == "transposed-view":
+            a = np.ascontiguousarray(a.T).T                # a view whose memory order is not the logical order
+        elif mem == "reversed-view":
+            a = a[::-1, ::-1][::-1, ::-1] if False else np.ascontiguousarray(a[::-1])[::-1]   # negative strides
+        return a
     if t == "sym":
         e = sym.Float(d["const"]) if isinstance(d["const"], float) else sym.Integer(d["const"])
         for tm in d["terms"]:
